@@ -3,7 +3,7 @@
     the same configuration and script with the oracles read off the observation (which delays
     were reported, where the call gave up), must produce the same events and result.
     [c12_violations]: the property monitor rejects the observation. *)
-From WM Require Import Base.Prelude Handler.Retry Handler.RetryMonitor.
+From WM Require Import Base.Prelude Message.Model Handler.RouterHandle Handler.Retry Handler.RetryMonitor Handler.RetryRouter.
 From Coq Require Import QArith Qround.
 Open Scope Z_scope.
 
@@ -86,3 +86,27 @@ Definition c12_violations (cs : list c12_case) : list nat := positions (map c12_
 (** the back-off schedule of a configuration (no Stop): currentInterval before retries 1..n;
     printed into the evidence and compared with the delays reported when rf = 0 *)
 Definition schedule (c : cfg) (n : nat) : list Z := map (fun k => cur_at c (S k)) (seq 0 n).
+
+(** Retry inside a real Router (handler with a real publisher that accepts or fails): the
+    settlement of the consumed message and the Publish calls must be what C02's [handle] does
+    with the result of the model's run of Retry *)
+Record c12_router_case := C12R {
+  rk_case : c12_case; rk_pub : pubbeh; rk_settle : settle; rk_published : list (list N)
+}.
+Definition c12_router_mismatch (k : c12_router_case) : bool :=
+  let c := k_cfg (rk_case k) in
+  let r := retry c (script_fn (k_script (rk_case k))) (mk_env c (k_obs (rk_case k))) in
+  let '(m, tr) := handle PubReal (rk_pub k) (chain_of (r_out r)) in
+  negb (settle_eqb (st m) (rk_settle k)
+        && list_eqb (list_eqb N.eqb) (publishes tr) (rk_published k)).
+Definition c12_router_mismatches (cs : list c12_router_case) : list nat :=
+  positions (map c12_router_mismatch cs).
+
+(** the errors the scripted LoggerAdapter was handed, in order, against the model's [log_errs] *)
+Record c12_log_case := C12L { lk_case : c12_case; lk_errs : list N }.
+Definition c12_log_mismatch (k : c12_log_case) : bool :=
+  let c := k_cfg (lk_case k) in
+  let h := script_fn (k_script (lk_case k)) in
+  let r := retry c h (mk_env c (k_obs (lk_case k))) in
+  negb (list_eqb N.eqb (log_errs h (r_trace r)) (lk_errs k)).
+Definition c12_log_mismatches (cs : list c12_log_case) : list nat := positions (map c12_log_mismatch cs).
